@@ -2,7 +2,7 @@
 C14 - probed system description and derived machine model match the machine.
 Property theorems; long proofs live in RigModel/Lemmas/C14.lean.
 -/
-import RigModel.Lemmas.C14o
+import RigModel.Lemmas.C14p
 set_option linter.unusedSimpArgs false
 set_option linter.unusedVariables false
 
@@ -455,6 +455,20 @@ theorem struct_field_exact (rd : Rd) (fields : List (String × Nat × Nat × Boo
 
 /-- non-vacuity: `sv.iobuf_size` is such a field -/
 example : SV_FIELDS.find? (·.1 == "iobuf_size") = some ("iobuf_size", 80, 4, false, 1) := by decide
+
+/-- **Struct layouts.** The probes are modelled with the struct definitions in force (`MachineController.structs`)
+as a parameter (`…L` functions, used by the harness for machines laid out under other definitions); at the bundled
+definitions they ARE the functions all theorems above are about. -/
+theorem layout_default_instance (rd : Rd) :
+    (∀ name, svFieldL defaultLayout rd name = svField rd name) ∧
+    (∀ p, vcpuAddrL defaultLayout rd p = vcpuAddr rd p) ∧
+    (∀ data, decodeStatusL defaultLayout data = decodeStatus data) ∧
+    (∀ p, processorStatusL defaultLayout rd p = processorStatus rd p) ∧
+    (∀ p fuel, iobufBytesL defaultLayout rd p fuel = iobufBytes rd p fuel) ∧
+    p2pTableL defaultLayout rd = p2pTable rd ∧
+    (∀ probe, getSystemInfoL defaultLayout rd probe = getSystemInfo rd probe) :=
+  ⟨svFieldL_default rd, vcpuAddrL_default rd, decodeStatusL_default, processorStatusL_default rd,
+   iobufBytesL_default rd, p2pTableL_default rd, getSystemInfoL_default rd⟩
 
 /-! ## the oracles the harness evaluates on the implementation's outputs -/
 
